@@ -221,8 +221,12 @@ package bytecode
 //@   presumes ends: l.From != nil && l.To != nil
 //@   ensures leaf: result.1 == nil && len(result.0) == 1 && result.0[0] is MatchRange && (result.0[0] as MatchRange).From == l.From.Value && (result.0[0] as MatchRange).To == l.To.Value && !(result.0[0] as MatchRange).Not
 
+// declares(n): generating the node n adds a name (a capture, a subroutine) to the name table; part
+// of A-GEN: a node that declares nothing leaves the set of names as it was.
+//@ specfunc declares(Iface) Bool
 //@ func generateSearchInstruction [C13 C01]
 //@   trusted
+//@   ensures names: !declares(*l) ==> domain(state.variables) == old(domain(state.variables)) [C14]
 //@   effects onlywrites map<string>int [C13]
 //@   requires l != nil && state != nil && state.variables != nil
 //@   modifies allmaps(state.variables)
@@ -235,6 +239,9 @@ package bytecode
 //@ pred loopAt(code []SearchInstruction, c Int, offset Int, L Int, fewest Bool) := len(code) == c + L + 2 && code[c] is StartLoop && (code[c] as StartLoop).ExitLoop == offset + c + L + 1 && code[c + L + 1] is StopLoop && (code[c + L + 1] as StopLoop).StartLoop == offset + c && (code[c] as StartLoop).Id == (code[c + L + 1] as StopLoop).Id && (code[c] as StartLoop).Fewest == fewest && (code[c + L + 1] as StopLoop).Fewest == fewest
 //@ func generateLoop [C01]
 //@   noframe
+// C14 (a group under a quantifier, `(a)+`): every copy of the body is generated in the name scope the
+// loop was entered with. On the pinned code this fails for bodies that declare a name (known finding D26).
+//@   atcall generateSearchInstruction scope: domain(state.variables) == old(domain(state.variables)) [C14]
 //@   requires l != nil && state != nil && state.variables != nil
 //@   modifies allmaps(state.variables)
 //@   let B := l.Body
@@ -247,6 +254,7 @@ package bytecode
 //@   ensures repeating: result.1 == nil && !(l.Min == l.Max && l.Name == "") ==> loopAt(result.0, (unrolled ? select(P, l.Min) - offset : 0), offset, L, l.Fewest)
 //@   ensures body: result.1 == nil && !(l.Min == l.Max && l.Name == "") ==> (forall p :: { result.0[p] } len(result.0) - L - 1 <= p && p < len(result.0) - 1 ==> result.0[p] == genCode(B, offset + len(result.0) - L - 1, p - (len(result.0) - L - 1)))
 //@   loop 1 ghost P (Array Int Int) := store(P, 0, offset) ;; store(P, i, current_offset)
+//@   loop 1 invariant scope: l.Body == B && (!declares(B) ==> domain(state.variables) == old(domain(state.variables))) [C14]
 //@   loop 1 invariant 0 <= i && i <= l.Min && unrolled && l.Body == B && state.variables != nil && select(P, i) == current_offset && select(P, 0) == offset && len(result) == current_offset - offset && L >= 0
 //@   loop 1 invariant forall j :: { select(P, j) } 0 <= j && j < i ==> select(P, j + 1) == select(P, j) + L && select(P, j) >= offset
 //@   loop 1 invariant forall j :: { select(P, j) } 0 <= j && j <= i ==> select(P, j) <= current_offset
